@@ -34,6 +34,8 @@ pub fn check(tier: Tier) -> Check {
     // identifier flavour: the counters start next to a boundary of their encodings (DESIGN 4)
     parts.push(Part::new("C10/quota", json!({"depth": tier.pick(5, 7), "r": 2, "ids": [65534, 1]}), 0, tier.pick(25, 400)));
     parts.push(Part::new("C10/quota", json!({"depth": tier.pick(5, 7), "r": 3, "ids": [254, 1]}), 0, tier.pick(25, 400)));
+    // operations issued on one long-lived handle and on clones of it
+    parts.push(Part::new("C10/quota", json!({"depth": tier.pick(4, 6), "r": 2, "worker": true}), 0, tier.pick(25, 400)));
     // one Context, two connections: R1 on the first, R on the second
     for (r1, r) in [(0u64, 1u64), (3, 1), (1, 2), (1, 3)] {
         parts.push(Part::new("C10/quota", json!({"depth": tier.pick(4, 6), "r": r, "r1": r1}), 0, tier.pick(25, 400)));
@@ -43,6 +45,9 @@ pub fn check(tier: Tier) -> Check {
     parts.push(Part::new("C10/resume", json!({"depth": tier.pick(4, 6), "expiry": 1000, "secs_ago": 10}), 0, tier.pick(25, 300)));
     parts.push(Part::new("C10/resume", json!({"depth": tier.pick(4, 5), "expiry": 1000, "secs_ago": 10, "r": 65535}), 0, tier.pick(25, 300)));
     parts.push(Part::new("C10/resume", json!({"depth": tier.pick(3, 4), "expiry": 0, "secs_ago": 10, "r": 65535}), 0, tier.pick(25, 300)));
+    // a QoS 2 publish abandoned before its PUBREC: the exchange stays open on the server's side, so its
+    // slot must not be handed out again on a successful PUBREC (only a failing one ends it)
+    parts.push(Part::new("C10/abandoned", json!({}), 0, 60));
     parts.push(Part::new("C10/fill", json!({"r": 65535}), 0, 120));
     parts.push(Part::new("C10/fill", json!({"r": 0}), 0, 120));
     parts.push(Part::new("C10/fill", json!({"r": 300}), 0, 120));
@@ -50,7 +55,7 @@ pub fn check(tier: Tier) -> Check {
         also_rel: false,
         property: "C10",
         level: "model_checking",
-        rule: "R in {1,2,3} (announced in a bare CONNACK, and with Session Present = 1 among many other CONNECT/CONNACK settings): all histories of QoS 0/1/2 publishes, pings, subscribes, unsubscribes and acknowledgements (0x00, 0x10 and failing, for any outstanding operation) up to the stated depth; the same on the second connection of a Context whose first connection announced a different R; R = 65535 (absent / announced) across a session resume: histories, connection loss, reconnect, the acknowledgements of the re-sent packets, a fresh publish; R in {65535, absent, 300}: deterministic fill - refuse - drain - refill runs through the real client; accept/refuse decisions and the wire must equal the model's; non-trivial = a publish was refused for quota or a slot was freed by a failing acknowledgement".into(),
+        rule: "R in {1,2,3} (announced in a bare CONNACK, and with Session Present = 1 among many other CONNECT/CONNACK settings): all histories of QoS 0/1/2 publishes, pings, subscribes, unsubscribes and acknowledgements (0x00, 0x10 and failing, for any outstanding operation) up to the stated depth; the same on the second connection of a Context whose first connection announced a different R; R = 65535 (absent / announced) across a session resume: histories, connection loss, reconnect, the acknowledgements of the re-sent packets, a fresh publish; a QoS 2 publish abandoned (future dropped, also while still queued) before its PUBREC, R in {1,2,3}, PUBREC with 0x00 / 0x10 / failing reasons in both forms, then probe publishes: the open exchange keeps its slot; R in {65535, absent, 300}: deterministic fill - refuse - drain - refill runs through the real client; accept/refuse decisions and the wire must equal the model's; non-trivial = a publish was refused for quota or a slot was freed by a failing acknowledgement".into(),
         assumptions: vec!["conformant broker".into()],
         parts,
     }
@@ -110,7 +115,56 @@ fn fill(name: String, params: Value) -> Scenario {
     })
 }
 
+fn abandoned(name: String, params: Value) -> Scenario {
+    Box::new(move |chz, ex| {
+        let r = 1 + chz.choose(3) as u16;
+        let reason = [0u8, 0x10, 0x80, 0x97][chz.choose(4)];
+        let held_ctx = chz.choose(2) == 1;
+        let form_long = chz.choose(2) == 1;
+        let mut sys = Sys::new("C10", &name, chz);
+        sys.params = params.clone();
+        sys.m.check_client_acks = false;
+        sys.m.tolerate_abandoned_q2 = true;
+        sys.bring_up(receive_max(r));
+        for _ in 1..r {
+            sys.apply(Ev::Start(OpSpec::Publish(PublishSpec::simple(1, "t/f", b"fill"))));
+        }
+        if held_ctx {
+            // the request is still queued when its future goes away; it is sent all the same
+            sys.apply(Ev::Hold(crate::world::Tid::Ctx));
+        }
+        sys.apply(Ev::Start(OpSpec::Publish(PublishSpec::simple(2, "t/q", b"abandoned"))));
+        let op = sys.m.ops.len() - 1;
+        sys.apply(Ev::Cancel(op));
+        if held_ctx {
+            sys.apply(Ev::Release(crate::world::Tid::Ctx));
+        }
+        if sys.dead {
+            return sys.report(ex, &[]);
+        }
+        if let Some(rec) = sys.ack_for(op, reason, if form_long { "late" } else { "" }) {
+            sys.apply(Ev::Deliver(rec));
+        }
+        // the probe: refused while the abandoned exchange is open, accepted after a failing PUBREC
+        sys.apply(Ev::Start(OpSpec::Publish(PublishSpec::simple(1, "t/p", b"probe"))));
+        sys.apply(Ev::Start(OpSpec::Publish(PublishSpec::simple(0, "t/z", b"free"))));
+        // one of the fillers completes: exactly one more publish fits
+        if r > 1 && !sys.dead {
+            if let Some(a) = sys.ack_for(0, 0, "") {
+                sys.apply(Ev::Deliver(a));
+            }
+            sys.apply(Ev::Start(OpSpec::Publish(PublishSpec::simple(2, "t/p2", b"probe2"))));
+            sys.apply(Ev::Start(OpSpec::Publish(PublishSpec::simple(1, "t/p3", b"probe3"))));
+        }
+        sys.finish();
+        sys.report(ex, &["abandoned-q2-open", "quota-refusal"]);
+    })
+}
+
 pub fn scenario(name: &str, params: &Value) -> Scenario {
+    if name == "C10/abandoned" {
+        return abandoned(name.to_string(), params.clone());
+    }
     if name == "C10/resume" {
         return super::c17::scenario_for("C10", name, params);
     }
